@@ -1,1 +1,128 @@
-From DV Require Import Prelude.Base Model.Node.
+(* C12 — disconnect-peer handling and reconnect policy
+   Statements copied from the proof files; each is closed by `exact`. *)
+From DV Require Prelude.Base Model.Ids Proofs.IdsP Model.Node Proofs.NodeC Proofs.NodeA Proofs.NodeD.
+From Coq Require String List Lia Bool Arith ZArith.
+
+Module FromNodeC.
+Import DV.Prelude.Base DV.Model.Ids DV.Proofs.IdsP DV.Model.Node DV.Proofs.NodeC.
+Local Open Scope Z_scope.
+
+(* C12: a DPR is answered with success on the same connection, the connection leaves the ready
+   states (so route_request no longer offers it), and its peer is marked as disconnected by DPR *)
+Theorem C12_dpr n cid m c n' outs :
+  get_conn n cid = Some c -> recv_dpr n cid m = (n', outs) ->
+  outs = [OQueue cid (answer_of m (Some 2001) [])] /\
+  (exists c', get_conn n' cid = Some c' /\ c_state c' = SDisconnecting /\ is_ready_state (c_state c') = false /\
+              c_host c' = c_host c /\ c_node_name c' = c_node_name c) /\
+  (forall p, find_conn_peer n c = Some p ->
+             exists p', get_peer n' (p_name p) = Some p' /\ p_reason p' = Some R_DPR /\ p_conn p' = p_conn p) /\
+  (find_conn_peer n c = None -> n_peers n' = n_peers n).
+Proof. exact (@NodeC.C12_dpr n cid m c n' outs). Qed.
+
+(* C12 (corollary): after a DPR the connection is not offered to any application request *)
+Theorem C12_dpr_not_routed n cid m c n' outs i realm l p :
+  get_conn n cid = Some c -> recv_dpr n cid m = (n', outs) ->
+  route_request n' i realm = Some l -> List.In p l -> p_conn p <> Some cid.
+Proof. exact (@NodeC.C12_dpr_not_routed n cid m c n' outs i realm l p). Qed.
+
+(* wants_reconnect: exactly the documented reconnect condition *)
+Theorem wants_reconnect_spec n p :
+  wants_reconnect n p = true <->
+  n_stopping n = false /\ p_persistent p = true /\ p_conn p = None /\
+  (exists t, p_lastdisc p = Some t /\ p_rwait p <= n_now n - t) /\
+  ~ (p_reason p = Some R_DPR /\ p_always p = false).
+Proof. exact (@NodeC.wants_reconnect_spec n p). Qed.
+
+(* C12: at a wake-up exactly the peers that want a reconnect (in the node as it is when the
+   pass starts) and have an address are dialled *)
+Theorem C12_reconnect_iff n names ds n' outs ds' :
+  cid_fresh n -> List.NoDup names -> reconnect_all n names ds = (n', outs, ds') ->
+  forall nm, List.In (ODial nm) outs <->
+             List.In nm names /\
+             exists p, get_peer n nm = Some p /\ wants_reconnect n p = true /\ p_has_addr p = true.
+Proof. exact (@NodeC.C12_reconnect_iff n names ds n' outs ds'). Qed.
+
+(* C12: only persistent peers are ever dialled, whatever the event *)
+Theorem C12_never_nonpersistent n ds e n' outs nm :
+  step n ds e = (n', outs) -> List.In (ODial nm) outs ->
+  exists p, get_peer n nm = Some p /\ p_persistent p = true.
+Proof. exact (@NodeC.C12_never_nonpersistent n ds e n' outs nm). Qed.
+
+(* C12: dialling a peer that already has a connection, or has no address, does nothing *)
+Theorem C12_dial_needs_no_connection n nm h r p :
+  get_peer n nm = Some p -> (p_conn p <> None \/ p_has_addr p = false) ->
+  connect_to_peer n nm h r = (n, []).
+Proof. exact (@NodeC.C12_dial_needs_no_connection n nm h r p). Qed.
+
+(* C12: the names and the persistence flags of the configured peers never change *)
+Theorem persistent_stable n ds e n' outs :
+  step n ds e = (n', outs) ->
+  List.map (fun p => (p_name p, p_persistent p)) (n_peers n') = List.map (fun p => (p_name p, p_persistent p)) (n_peers n) /\
+  forall nm p, get_peer n nm = Some p ->
+               exists p', get_peer n' nm = Some p' /\ p_persistent p' = p_persistent p.
+Proof. exact (@NodeC.persistent_stable n ds e n' outs). Qed.
+End FromNodeC.
+
+Module FromNodeA.
+Import DV.Prelude.Base DV.Model.Node DV.Proofs.NodeA.
+Import Coq.Strings.String.
+Open Scope string_scope.
+Open Scope list_scope.
+Open Scope Z_scope.
+
+(* C06: a CEA never revives a connection: one that is CONNECTING, DISCONNECTING, CLOSING or CLOSED becomes
+   ready only by a CER of a configured peer; a read that holds answers only leaves it not ready *)
+Theorem C06_cea_never_revives n ds e cid c c' :
+  (cid < n_next_cid n)%nat ->
+  get_conn n cid = Some c ->
+  (c_state c = SConnecting \/ c_state c = SDisconnecting \/ c_state c = SClosing \/ c_state c = SClosed) ->
+  get_conn (fst (step n ds e)) cid = Some c' ->
+  (is_ready_state (c_state c') = true ->
+   exists ms, e = ERecv cid ms /\ exists m, List.In m ms /\ is_good_cer n m) /\
+  (forall ms, e = ERecv cid ms -> (forall m, List.In m ms -> m_req m = false) ->
+   is_ready_state (c_state c') = false).
+Proof. exact (@NodeA.C06_cea_never_revives n ds e cid c c'). Qed.
+End FromNodeA.
+
+Module FromNodeD.
+Import DV.Prelude.Base DV.Model.Node DV.Proofs.NodeD.
+Import Coq.Strings.String.
+Import Coq.Lists.List Coq.micromega.Lia Coq.Bool.Bool Coq.Arith.Arith.
+Import ListNotations.
+Open Scope nat_scope.
+
+(* ---- invariant 4 ---- *)
+Theorem C12_outbound_owned : forall n0 n, reach n0 n -> ~ List.In ""%string (List.map p_name (n_peers n0)) ->
+  forall c, List.In c (n_conns n) -> c_recv c = false ->
+  exists p, List.In p (n_peers n) /\ p_name p = c_node_name c /\ p_conn p = Some (c_id c).
+Proof. exact NodeD.C12_outbound_owned. Qed.
+
+Theorem C12_single_outbound : forall n0 n, reach n0 n -> ~ List.In ""%string (List.map p_name (n_peers n0)) ->
+  forall c1 c2, List.In c1 (n_conns n) -> List.In c2 (n_conns n) ->
+  c_recv c1 = false -> c_recv c2 = false -> c_node_name c1 = c_node_name c2 -> c1 = c2.
+Proof. exact NodeD.C12_single_outbound. Qed.
+
+(* ---- FINDING (C12): the hypothesis "no peer is named the empty string" is needed: a CER received
+   on a READY outbound connection to the peer named "" renames the connection; two outbound
+   connections then carry the node name "q" (the renamed one loses the election and is CLOSING; it
+   stays as long as its socket accepts no writes; once it is removed, the connection of peer ""
+   dangles). ---- *)
+Theorem C12_empty_name_refuted :
+  exists n0 evs, wf_init n0 /\
+    let n := fst (run n0 evs) in
+    exists c1 c2, List.In c1 (n_conns n) /\ List.In c2 (n_conns n) /\ c_recv c1 = false /\ c_recv c2 = false /\
+                  c_node_name c1 = c_node_name c2 /\ c_id c1 <> c_id c2.
+Proof. exact NodeD.C12_empty_name_refuted. Qed.
+End FromNodeD.
+
+Print Assumptions FromNodeC.C12_dpr.
+Print Assumptions FromNodeC.C12_dpr_not_routed.
+Print Assumptions FromNodeC.wants_reconnect_spec.
+Print Assumptions FromNodeC.C12_reconnect_iff.
+Print Assumptions FromNodeC.C12_never_nonpersistent.
+Print Assumptions FromNodeC.C12_dial_needs_no_connection.
+Print Assumptions FromNodeC.persistent_stable.
+Print Assumptions FromNodeA.C06_cea_never_revives.
+Print Assumptions FromNodeD.C12_outbound_owned.
+Print Assumptions FromNodeD.C12_single_outbound.
+Print Assumptions FromNodeD.C12_empty_name_refuted.
